@@ -224,7 +224,7 @@ func buildObjectResponse(msg *Message, o *object.Object, start time.Time, kind s
 			buf.WriteString(`,"bounds":`)
 			buf.Write(appendJSONSimpleBounds(nil, o.Geo()))
 		} else {
-			bbox := o.Rect()
+			bbox := finiteRect(o.Geo())
 			vals = append(vals, resp.ArrayValue([]resp.Value{
 				resp.ArrayValue([]resp.Value{
 					resp.FloatValue(bbox.Min.Y),
